@@ -41,10 +41,11 @@ def gen_case(rng, tier, avoid):
                 rc['layout'] = 'view'
             if rng.random() < 0.25:
                 op['kwargs']['cast_dtype'] = gen.cast_literal(rng, gen.pick(rng, SAFE_CASTS[rc['dtype'][1:]]))
-    kind = gen.pick(rng, ['inline', 'dict', 'struct', 'struct', 'h5'])
+    kind = gen.pick(rng, ['inline', 'dict', 'dict', 'struct', 'struct', 'h5'])
     ops, data = spec.ops, None
     if kind != 'inline':
-        ops, data = gen.externalize(spec.ops, kind, rng)
+        # (dict: in half of the cases only some channels move to the write-time dict, the others keep their inline arrays)
+        ops, data = gen.externalize(spec.ops, kind, rng, partial=(kind == 'dict' and rng.random() < 0.5))
         if data['kind'] == 'struct':
             data['layout'] = rng.choice(['plain', 'view', 'view', 'readonly'])
             if rng.random() < 0.5:
